@@ -434,6 +434,9 @@ class SketchSubject(Subject):
         if self.supports_remove() and present and rng.chance(1, 3) and not self.cfg.get("saturated"):
             k = rng.choice(present)
             return {"op": "remove", "k": k, "n": rng.between(1, min(self.model[k], 4))}
+        if self.supports_remove() and self.cfg.get("negatives") and self.total > 0 and rng.chance(1, 10):
+            # bring the net total to exactly 0 while cells stay non-zero
+            return {"op": "remove", "k": rng.below(u + 3), "n": self.total, "over": True}
         if self.supports_remove() and self.cfg.get("negatives") and rng.chance(1, 6):
             # over-removal: cells go negative (a reachable state; only used where no legitimacy is needed)
             return {"op": "remove", "k": rng.below(u), "n": rng.weighted([(4, 1), (2, 9), (1, 2**31 + 5)]), "over": True}
